@@ -184,10 +184,12 @@ def run(ctx, replay):
     nr = 100 if quick else 2500
     dump = ctx.path("rnd_cases.jsonl")
     with ThreadPoolExecutor(max_workers=8) as ex:
-        big = {"MaxClaims": 2, "MaxDeletes": 2} if quick else {"MaxClaims": 3, "MaxDeletes": 2}
+        big = {"MaxClaims": 2, "MaxDeletes": 2} if quick else {"MaxClaims": 3, "MaxDeletes": 1}
         chain = {"MaxClaims": 1, "MaxDeletes": 3 if quick else 4, "DelSigners": "{1, 2}"}
         fs = [ex.submit(ctx.tlc_check, "Claims", "Claims.cfg", overrides=big, workers=4 if quick else 12, timeout=3000, coverage=not quick),
               ex.submit(ctx.tlc_check, "Claims", "Claims.cfg", overrides=chain, workers=2 if quick else 4),
+              ex.submit(ctx.tlc_check, "Claims", "Claims.cfg", overrides=dict({"MaxClaims": 2, "MaxDeletes": 3, "SVals": "{1}"}, **({"SDates": "{10}"} if quick else {})),
+                        workers=2 if quick else 4),
               ex.submit(ctx.tlc_check, "Claims", "Claims.cfg", overrides={"Deviations": '{"IgnoreClaimDeletion"}'}, workers=1,
                         expect_violation="L1_DeletedClaimsVanish"),
               ex.submit(ctx.tlc_check, "Claims", "Claims.cfg", overrides={"Deviations": '{"ModTimeCountsPermanodeDelete"}'}, workers=1,
@@ -216,7 +218,9 @@ def run(ctx, replay):
         cases = [dict(c, leg=tag) for tag, cs in (("G-pairs", bfs2), ("G-triples", bfs3), ("G-chains", bfsd), ("G-sim", sim), ("T-random", rnd)) for c in cs]
         total_w, total_n, first_trace = run_cases(ctx, drv, cases, "all", 10)
         for f in fs:
-            f.result()
+            r = f.result()
+            if r.get("zero_actions"):
+                raise vlib.MachineryError("leg S: actions never taken: %s" % r["zero_actions"])
     for c in cases:
         ctx.distinct(world_key(c))
     ctx.count("G", worlds_pairs=len(bfs2), worlds_triples=len(bfs3), worlds_chains=len(bfsd), worlds_sim=len(sim), answers=total_n)
